@@ -738,3 +738,28 @@ def gen_large(ctx):
 
 
 UNITS.append(Unit("large_files", gen_large, check_corpus, shards=(4, 4)))
+
+
+# ----------------------------------------------------------------------------------------------- the readers behind the command line
+
+def gen_cli_read(ctx):
+    """every reader reached through `treetools transform` (runpy, in this process): source files in all four formats, plain
+    or gzip (one or two members), reader options given as --src-opts (brackets_firstid incl. 0, continuous, an inert
+    gf_separator), destination export/TIGER-XML (the two formats that show sentence ids and all fields); the decoded
+    destination must be the projection of the source model (oracle and projection table of checks/C03.py)"""
+    from checks import C03
+    quick = ctx.tier == "quick"
+
+    def body(case):
+        C03.check(case)
+        ctx.count(key=case, nontrivial=not C03.trivial(case), classes=["cli-read:" + c for c in C03.classes_of(case)])
+    ctx.hyp(C03.conv_case(7 if quick else 10, 4 if quick else 6, 0.0, dests=["export", "export", "tigerxml"]).map(lambda c: dict(c, third=None)),
+            body, max_examples=80 if quick else 800, shrink=False, smaller=C03.smaller)
+
+
+def check_cli_read(case):
+    from checks import C03
+    return C03.check(case)
+
+
+UNITS.append(Unit("cli_read", gen_cli_read, check_cli_read, shards=(4, 8)))
